@@ -466,6 +466,8 @@ def run(ctx, rep):
     r10e(ctx, rep)
     r10b(ctx, rep)
     r10d(ctx, rep)
+    from . import numeric
+    numeric.r16e(ctx, rep, rule="R10f")
     rep.not_decided += ["numbers (formatting switches at 1E10 and {:e} are run-time behaviour of std/num)",
                         "symbols and delimiters", "container nesting and idempotence of write . read",
                         "the trip source text -> heap -> result -> text for concrete data"]
